@@ -23,12 +23,18 @@ func VerifC09FileRace(scn int, pre int) {
 	iters := 1
 	if !vrf.Symbolic() {
 		iters = 100
+		if scn == 5 {
+			iters = 8 // each round repeats the race 300 times itself
+		}
 	}
 	for it := 0; it < iters; it++ {
 		vrfFileRaceOnce(scn, pre)
 	}
 	vrf.Cover("file-race-done")
 }
+
+// vrfSibling hashes into the same level-1 directory (and lock bucket) as "alpha".
+const vrfSibling = "u269"
 
 func vrfFileRaceOnce(scn int, pre int) {
 	dir := vrf.VfsTempDir()
@@ -49,10 +55,14 @@ func vrfFileRaceOnce(scn int, pre int) {
 	id1, perr := st.AddMessage(mk("1"))
 	vrf.Assert("prelude-noerr", perr == nil)
 	vrf.Preemptions(pre)
-	if scn == 4 {
+	if scn == 4 || scn == 5 {
 		// every file-system mutation of the store is a scheduling point too: the other goroutine
 		// may run while this one is in the middle of an update, holding the mailbox lock
-		CrashHook = func(site, path string) { vrf.Yield() }
+		if scn == 5 {
+			CrashHook = func(site, path string) { vrf.PreemptPoint() }
+		} else {
+			CrashHook = func(site, path string) { vrf.Yield() }
+		}
 		defer func() { CrashHook = nil }()
 	}
 	done := make(chan error, 2)
@@ -77,7 +87,38 @@ func vrfFileRaceOnce(scn int, pre int) {
 			done <- rs.DoScan(context.Background())
 		}()
 	}
-	if scn == 3 {
+	if scn == 5 {
+		// the mailbox is emptied (its directory and empty parents are removed) while a sibling
+		// mailbox - same level-1 directory, same lock bucket - gets its first message
+		rounds := 1
+		if !vrf.Symbolic() {
+			// natively the window is a few microseconds: each goroutine repeats its half of the
+			// race (empty the mailbox, fill it again / fill the sibling, empty it again)
+			rounds = 300
+		}
+		go func() {
+			var err error
+			for r := 0; r < rounds && err == nil; r++ {
+				err = st.PurgeMessages("alpha")
+				if err == nil && r+1 < rounds {
+					_, err = st.AddMessage(mk("R"))
+				}
+			}
+			done <- err
+		}()
+		go func() {
+			var err error
+			for r := 0; r < rounds && err == nil; r++ {
+				m := mk("S")
+				m.mailbox = vrfSibling
+				_, err = st.AddMessage(m)
+				if err == nil && r+1 < rounds {
+					err = st.PurgeMessages(vrfSibling)
+				}
+			}
+			done <- err
+		}()
+	} else if scn == 3 {
 		go func() { done <- st.PurgeMessages("alpha") }()
 	} else {
 		go func() {
@@ -139,5 +180,9 @@ func vrfFileRaceOnce(scn int, pre int) {
 		pa, _ := has(idA)
 		vrf.Assert("expired-message-removed-by-the-scan", !p1)
 		vrf.Assert("delivered-message-not-lost", pa)
+	case 5:
+		vrf.Assert("purged-mailbox-empty", len(ms) == 0)
+		sm, serr := st.GetMessages(vrfSibling)
+		vrf.Assert("sibling-delivery-stored", serr == nil && len(sm) == 1)
 	}
 }
